@@ -173,6 +173,7 @@ def _analyse(prop, root):
         ctx.error("analysis", str(e))
     except Exception as e:  # a crash of a rule on a mutant is recorded, never a kill
         ctx.error("internal", repr(e))
+    ctx.postprocess()
     return ctx
 
 
@@ -185,97 +186,91 @@ def _apply_patch(root, path, reverse=False):
     return r.returncode == 0
 
 
-def selftest(ctx, prop):
+def _job(spec):
+    """one variant of the tree, analysed in a scratch copy: spec = (prop, group, name, how, expect)"""
+    prop, group, name, how, expect = spec
     base = tempfile.mkdtemp(prefix="pdsa-selftest-", dir=_scratch_base())
-    res = {"mutants": [], "preserving": [], "not_applicable": []}
-    n = [0]
-
-    def fresh():
-        n[0] += 1
-        d = os.path.join(base, "t%d" % n[0])
-        _copy_tree(d)
-        return d
-
-    def record_mutant(name, kind, root, expect):
+    root = os.path.join(base, "t")
+    try:
+        _copy_tree(root)
+        if how[0] in ("patch", "rpatch"):
+            if not os.path.exists(how[1]) or not _apply_patch(root, how[1], reverse=(how[0] == "rpatch")):
+                return {"group": group, "name": name, "na": "patch no longer applies to the current tree"}
+        else:
+            _, fn, old, new = how
+            path = os.path.join(root, PKG_REL, fn)
+            with open(path) as fh:
+                src = fh.read()
+            if src.count(old) != 1:
+                return {"group": group, "name": name, "na": "anchor text occurs %d times" % src.count(old)}
+            with open(path, "w") as fh:
+                fh.write(src.replace(old, new))
         c = _analyse(prop, root)
         rules = sorted({f.rule for f in c.findings})
-        killed = any(r.startswith(expect) for r in rules) if expect else bool(rules)
-        res["mutants"].append({"name": name, "kind": kind, "expected_rule": expect, "killed": killed, "rules_fired": rules,
-                               "analysis_errors": [e["message"][:120] for e in c.errors][:3]})
-        shutil.rmtree(root, ignore_errors=True)
-
-    try:
-        # 1. un-fix mutants
-        for commit, pairs in UNFIX.items():
-            for p, expect in pairs:
-                if p != prop:
-                    continue
-                path = os.path.join(VERIF, "pdsa", "selftest", "unfix", commit + ".diff")
-                root = fresh()
-                if not os.path.exists(path) or not _apply_patch(root, path, reverse=True):
-                    res["not_applicable"].append("un-fix %s (diff no longer applies to the current tree)" % commit)
-                    shutil.rmtree(root, ignore_errors=True)
-                    continue
-                record_mutant("un-fix of %s" % commit, "unfix", root, expect)
-        # 2. seeded mutants
-        for meta_path in sorted(glob.glob(os.path.join(VERIF, "seeded", "*", "meta.json"))):
-            try:
-                with open(meta_path) as fh:
-                    meta = json.load(fh)
-            except (OSError, ValueError):
-                continue
-            det = meta.get("detected_by", {})
-            if prop not in det:
-                continue
-            root = fresh()
-            if not _apply_patch(root, os.path.join(os.path.dirname(meta_path), "patch.diff")):
-                res["not_applicable"].append("seeded %s (patch no longer applies)" % os.path.basename(os.path.dirname(meta_path)))
-                shutil.rmtree(root, ignore_errors=True)
-                continue
-            record_mutant("seeded %s" % os.path.basename(os.path.dirname(meta_path)), "seeded", root, det[prop])
-        # 3. edit mutants
-        for p, name, fn, old, new, expect in EDITS:
-            if p != prop:
-                continue
-            root = fresh()
-            path = os.path.join(root, PKG_REL, fn)
-            with open(path) as fh:
-                src = fh.read()
-            if src.count(old) != 1:
-                res["not_applicable"].append("edit '%s' (anchor text occurs %d times)" % (name, src.count(old)))
-                shutil.rmtree(root, ignore_errors=True)
-                continue
-            with open(path, "w") as fh:
-                fh.write(src.replace(old, new))
-            record_mutant(name, "edit", root, expect)
-        # 4. preserving edits
-        for p, name, fn, old, new in PRESERVING:
-            if p != prop:
-                continue
-            root = fresh()
-            path = os.path.join(root, PKG_REL, fn)
-            with open(path) as fh:
-                src = fh.read()
-            if src.count(old) != 1:
-                res["not_applicable"].append("preserving edit '%s' (anchor text occurs %d times)" % (name, src.count(old)))
-                shutil.rmtree(root, ignore_errors=True)
-                continue
-            with open(path, "w") as fh:
-                fh.write(src.replace(old, new))
-            c = _analyse(prop, root)
-            res["preserving"].append({"name": name, "silent": not c.findings and not c.errors,
-                                      "rules_fired": sorted({f.rule for f in c.findings}), "errors": [e["message"][:160] for e in c.errors][:2]})
-            shutil.rmtree(root, ignore_errors=True)
+        return {"group": group, "name": name, "expect": expect, "rules": rules, "errors": [e["message"][:160] for e in c.errors][:3]}
     finally:
         shutil.rmtree(base, ignore_errors=True)
+
+
+def selftest(ctx, prop):
+    specs = []
+    for commit, pairs in UNFIX.items():
+        for p, expect in pairs:
+            if p == prop:
+                specs.append((prop, "unfix", "un-fix of %s" % commit, ("rpatch", os.path.join(VERIF, "pdsa", "selftest", "unfix", commit + ".diff")), expect))
+    for meta_path in sorted(glob.glob(os.path.join(VERIF, "seeded", "*", "meta.json"))):
+        try:
+            with open(meta_path) as fh:
+                meta = json.load(fh)
+        except (OSError, ValueError):
+            continue
+        det = meta.get("detected_by", {})
+        if prop in det:
+            d = os.path.dirname(meta_path)
+            specs.append((prop, "seeded", "seeded %s" % os.path.basename(d), ("patch", os.path.join(d, "patch.diff")), det[prop]))
+    for p, name, fn, old, new, expect in EDITS:
+        if p == prop:
+            specs.append((prop, "edit", name, ("edit", fn, old, new), expect))
+    for p, name, fn, old, new in PRESERVING:
+        if p == prop:
+            specs.append((prop, "preserving", name, ("edit", fn, old, new), None))
+    # behaviour-preserving refactorings (benign/<name>/patch.diff, each with an equivalence harness): no violation may be
+    # reported on them; "cannot decide" (analysis error) is an acceptable answer on a module that was re-written
+    for pp in sorted(glob.glob(os.path.join(VERIF, "benign", "*", "patch.diff"))):
+        specs.append((prop, "refactoring", os.path.basename(os.path.dirname(pp)), ("patch", pp), None))
+    from concurrent.futures import ProcessPoolExecutor
+    workers = max(1, min(12, (os.cpu_count() or 2) - 2))
+    try:
+        with ProcessPoolExecutor(workers) as ex:
+            out = list(ex.map(_job, specs, chunksize=1))
+    except Exception:  # no process pool available: same work in this process
+        out = [_job(sp) for sp in specs]
+    res = {"mutants": [], "preserving": [], "not_applicable": [], "refactorings": []}
+    for r in out:
+        if "na" in r:
+            res["not_applicable"].append("%s %s (%s)" % (r["group"], r["name"], r["na"]))
+        elif r["group"] in ("unfix", "seeded", "edit"):
+            exp = r["expect"]
+            killed = any(x.startswith(exp) for x in r["rules"]) if exp else bool(r["rules"])
+            res["mutants"].append({"name": r["name"], "kind": r["group"], "expected_rule": exp, "killed": killed, "rules_fired": r["rules"],
+                                   "analysis_errors": r["errors"]})
+        elif r["group"] == "preserving":
+            res["preserving"].append({"name": r["name"], "silent": not r["rules"] and not r["errors"], "rules_fired": r["rules"], "errors": r["errors"][:2]})
+        else:
+            res["refactorings"].append({"name": r["name"], "silent": not r["rules"], "undecided": bool(r["errors"]), "rules_fired": r["rules"]})
     survivors = [m for m in res["mutants"] if not m["killed"]]
     noisy = [m for m in res["preserving"] if not m["silent"]]
     ctx.info["selftest"] = {
         "mutants_total": len(res["mutants"]), "mutants_killed": len(res["mutants"]) - len(survivors),
         "preserving_total": len(res["preserving"]), "preserving_silent": len(res["preserving"]) - len(noisy),
-        "not_applicable": res["not_applicable"], "mutants": res["mutants"], "preserving": res["preserving"],
+        "refactorings_total": len(res["refactorings"]), "refactorings_without_violation": sum(1 for r in res["refactorings"] if r["silent"]),
+        "refactorings_undecided": sum(1 for r in res["refactorings"] if r["silent"] and r["undecided"]),
+        "not_applicable": res["not_applicable"], "mutants": res["mutants"], "preserving": res["preserving"], "refactorings": res["refactorings"],
     }
     for m in survivors:
         ctx.error("selftest", "rule %s did not fire on mutant '%s' (fired: %s)" % (m["expected_rule"], m["name"], m["rules_fired"]))
     for m in noisy:
         ctx.error("selftest", "rules fired on the behaviour-preserving edit '%s': %s %s" % (m["name"], m["rules_fired"], m["errors"]))
+    for r in res["refactorings"]:
+        if not r["silent"]:
+            ctx.error("selftest", "rules fired on the behaviour-preserving refactoring '%s': %s" % (r["name"], r["rules_fired"]))
